@@ -1,0 +1,15 @@
+//go:build verif
+
+package sfnt
+
+import (
+	"seehuhn.de/go/sfnt/cmap"
+	"seehuhn.de/go/sfnt/opentype/gtab"
+)
+
+// Hooks for the C01 verification harness (add-only, thin wrappers around
+// unexported functions).
+
+// VerifC01StandardLigatures exposes standardLigatures, the GSUB table Read
+// synthesises for a font without a "GSUB" table.
+func VerifC01StandardLigatures(c cmap.Subtable) *gtab.Info { return standardLigatures(c) }
